@@ -370,20 +370,19 @@ structure TbtSt where
   calls : List TbtCall := []
 deriving Repr, DecidableEq, Inhabited
 
-/-- `_err_to_details`: non-empty details are kept, otherwise the traceback of `err` -/
+/-- `_err_to_details`: details (even an empty dict) are kept, otherwise the traceback of `err` -/
 def errToDetails : Arg → Details
-  | .details (p :: d) => p :: d
+  | .details d => d
   | _ => [(tracebackKey, .tb)]
 
-/-- the details `TestByTestResult` keeps for an outcome (`prev` = what it held before) -/
-def tbtDet (k : Kind) (a : Arg) (prev : Option Details) : Option Details :=
+/-- the details `TestByTestResult` keeps for an outcome -/
+def tbtDet (k : Kind) (a : Arg) : Option Details :=
   match k, a with
   | .success, .details d | .uxsuccess, .details d => some d
   | .success, _ | .uxsuccess, _ => none
   | .skip, .details d => some d
   | .skip, .reason r => some [(reasonKey, .text r)]
   | .skip, _ => none
-  | _, .details [] => prev      -- `_err_to_details` raises (`err may not be None`) before the assignment
   | _, a => some (errToDetails a)
 
 def tbtStep (s : TbtSt) (c : Call) : TbtSt :=
@@ -395,7 +394,7 @@ def tbtStep (s : TbtSt) (c : Call) : TbtSt :=
       let cb : TbtCall := { test := t, status := s.status, start := s.start, stop := s.tt.clock,
                             tags := s.tt.tags.cur, details := s.details }
       { s with tt := ttStep s.tt c, calls := s.calls ++ [cb] }
-  | .add k _ a => { s with tt := ttStep s.tt c, status := some (tbtStatus k), details := tbtDet k a s.details }
+  | .add k _ a => { s with tt := ttStep s.tt c, status := some (tbtStatus k), details := tbtDet k a }
   | _ => { s with tt := ttStep s.tt c }
 
 /-- own state of an `ExtendedToOriginalDecorator` -/
@@ -710,24 +709,14 @@ def step : (s : Shape) → St s → Call → St s
       | c => step ch st c
   | .tfr ch, (own, inner), c => tfrStep ⟨caps ch, step ch, failfastOf ch⟩ own inner c
   | .multi cs, (own, inner), c =>
+      -- (`_keeping_failfast`: the base class's assignments to `failfast` during `startTestRun` are ignored)
       match c with
       | .progress => (own, inner)
-      | .startTestRun =>
-          -- `_keeping_failfast(super().startTestRun)`: the reset assigns `failfast` twice, then every
-          -- wrapped result gets back the value read from it before
-          let saved := failfastL cs inner
-          let inner := stepL cs inner (.setFailfast false)
-          let inner := stepL cs inner (.setFailfast (saved.headD false))
-          let inner := restoreL cs inner saved
-          (multiOwn own c, stepL cs inner c)
       | c => (multiOwn own c, stepL cs inner c)
   | .e2s ch, (own, inner), c => e2sStep ⟨caps ch, step ch, failfastOf ch⟩ own inner c
 def stepL : (cs : List Shape) → StL cs → Call → StL cs
   | [], _, _ => ()
   | c :: cs, (x, xs), call => (step c x call, stepL cs xs call)
-def restoreL : (cs : List Shape) → StL cs → List Bool → StL cs
-  | [], _, _ => ()
-  | c :: cs, (x, xs), saved => (step c x (.setFailfast (saved.headD false)), restoreL cs xs saved.tail)
 end
 
 /-! ## construction -/
@@ -742,13 +731,8 @@ def init : (s : Shape) → St s
   | .tagger _ _ c => init c
   | .tfr c => (({} : TfrOwn), init c)
   | .multi cs =>
-      -- `_keeping_failfast(super().__init__)`: `failfast` is assigned `False` (constructor default, reset, re-assign)
-      let inner := initL cs
-      let saved := failfastL cs inner
-      let inner := stepL cs inner (.setFailfast false)
-      let inner := stepL cs inner (.setFailfast false)
-      let inner := stepL cs inner (.setFailfast false)
-      (({} : TT), restoreL cs inner saved)
+      -- `_keeping_failfast(super().__init__)`: constructing the wrapper assigns nothing to the wrapped results
+      (({} : TT), initL cs)
   | .e2s c => (({} : E2S), init c)
 def initL : (cs : List Shape) → StL cs
   | [] => ()
